@@ -86,6 +86,12 @@ theorem progCheck_sound {lines : List Str} {check : Assembly → Bool} (h : prog
     · cases h2
   · cases h
 
+/-- whole-program witness: the image of an INCLUDE-free program -/
+theorem progImage_sound {lines : List Str} {img : Bytes} (h : progCheck lines (fun a => a.image == some img) = true)
+    (fs : Files) : ∃ a, assemble fs lines = .ok a ∧ a.image = some img := by
+  obtain ⟨a, ha, hc⟩ := progCheck_sound (check := fun a => a.image == some img) (lines := lines) h fs
+  exact ⟨a, ha, by simpa using hc⟩
+
 /-- an INCLUDE-free program whose assembly ends in a diagnostic -/
 def progDiag (lines : List Str) : Bool :=
   match parseLines lines with
